@@ -80,7 +80,28 @@ def C17(run):
     run.assumptions += ['pathlib facts written as definitions (parts drop "" and ".", keep ".."; parent; absolute right operand wins); the OS resolves ".." physically',
                         'no symlinks and a case-sensitive file system (outside the model); tree-sitter/parse of the import expression is observed by the suite']
 
-PROPS = {'C12': C12, 'C16': C16, 'C17': C17}
+# ------------------------------------------------------------------------------------------ edit family
+EDIT_ASSUME = ['the edit heap model (coq/Edit/EditModel.v) is hand-written: identifier paths without scope selectors, atom values; it is tied to '
+               'cli/manipulations.py + expressions/set.py by the in-Coq `edit` correspondence (view after every call, also refused ones)',
+               'scope selectors, reference redirection (C11), quoted segments and the byte-level text are covered by the searches (tests), not by the theorems']
+def edit_family(run, search_prop, n_quick=900, n_thorough=6000, corr=True):
+    run.static()
+    run.props()
+    big = run.tier == 'thorough'
+    if corr:
+        run.suite('edit', 'edit_corr.py', [run.seed, 4800 if big else 800], 'ED')
+    res = oracle(run, 'edit-search', 'edit_search.py', [search_prop, run.seed, n_thorough if big else n_quick], timeout=3000)
+    hits = dict(res.get('known_hits', {})) if res else {}
+    for f in run.findings():
+        r = oracle_finding(run, f)
+    run.assumptions += EDIT_ASSUME
+
+def C08(run): edit_family(run, 'C08')
+def C04(run): edit_family(run, 'C04')
+def C05(run): edit_family(run, 'C05')
+def C19(run): edit_family(run, 'C19', n_quick=1500, n_thorough=10000)
+
+PROPS = {'C12': C12, 'C16': C16, 'C17': C17, 'C08': C08, 'C04': C04, 'C05': C05, 'C19': C19}
 
 def main():
     ap = argparse.ArgumentParser()
